@@ -24,6 +24,19 @@ def run(tier, v, wd, replay=None):
                 rnd = random.Random(vlib.seed())
                 lines = rnd.sample(lines, cap)
             out.writelines(lines)
+            # the same, the server answering with name errors: relayed to the leader and every waiter, never cached
+            r = vlib.tlc(wd, "DnsConc", "DnsConc_%s_gen_nx.cfg" % t, emit_to=part, timeout=3000)
+            v.add_tlc(r)
+            if r.violated:
+                raise vlib.Infra("DnsConc.tla violates %s in the model (%s, name errors)" % (r.violated, t))
+            with open(part) as f:
+                lines = f.readlines()
+            os.remove(part)
+            cap = 2000 if tier == "quick" else 60000
+            if len(lines) > cap:
+                import random
+                lines = random.Random(vlib.seed() + 1).sample(lines, cap)
+            out.writelines(lines)
     # the code as found (answers accepted on their id alone): the model must exhibit the mix-up, otherwise the property is vacuous here
     for t in ("udp", "tcp"):
         r = vlib.tlc(wd, "DnsConc", "DnsConc_%s_found.cfg" % t, timeout=600, workers=1)
